@@ -5,7 +5,11 @@ TypedDict / pydantic), each with its type parameters (order matters), its bases 
 them (partially bound, re-ordered, renamed, TypeVarTuple splices, bare), and its own annotated fields (possibly
 overriding an inherited member) -- plus a *query* (a class of the hierarchy, parametrised from a pool of mutually
 exclusive strict types, or bare), a debug_trail mode and two data variants.  Classes are created by ``exec`` of
-generated source with unique names.
+generated source with unique names.  WHERE things are declared is generated too (``mods``): up to three dynamic modules
+per case, every type variable, every class and the helper model has its own declaring module (``__module__`` of
+classes and of TypeVars is the right one: each declaration is executed inside its module's namespace), and the bound
+of B0 / the constraints of K0 may be spelled as strings or ForwardRefs (``limsp``) whose names are bound to the real
+types in the variable's own module and are the same / bound to an unrelated model / absent in the other modules.
 
 Oracle (DESIGN.md C16; no adaptix code involved in the expectation):
   the harness knows every field's defining class, annotation and every base's arguments, so it computes the
@@ -18,7 +22,8 @@ Oracle (DESIGN.md C16; no adaptix code involved in the expectation):
     its type variables, the overridden parent's version, other pool members) that does not conform to the
     expected type must be rejected with a LoadError whose trail starts at that field (debug_trail != DISABLE);
     if it happens to conform it must be accepted;
-  * bare use = the documented implicit parameters (``Any`` / bound / ``Union`` of constraints).
+  * bare use = the documented implicit parameters (``Any`` / bound / ``Union`` of constraints); a limit written as
+    a forward reference denotes what the TypeVar's own module binds the name to.
 Three-valued: zones the docs do not fix (bare TypeVarTuple, bound/constrained variables behind a bare *base*)
 are ``unspecified`` (counted, never asserted).
 """
@@ -219,22 +224,102 @@ def class_params(case, i):
     return list(case["classes"][i]["params"])
 
 
-def gen_source(case, uid):
+# ------------------------------------------------------------------------------------ modules and limit spellings
+# A case may spread its declarations over several dynamic modules (``case["mods"]``):
+#   {"n": number of modules, "tv": {type variable name: declaring module}, "cls": [declaring module of class i],
+#    "leaf": declaring module of the helper model, "foreign": [per module: what the NAMES used inside string-spelled
+#    bounds / constraints mean in that module when it is not the variable's own module: "same" (imported),
+#    "decoy" (bound to another model class), "absent" (not defined)]}
+# and may spell the bound of B0 / the constraints of K0 (``case["limsp"]``) as
+#   "real"  -- the class objects themselves                     TypeVar("B0", bound=List[Leaf])
+#   "str"   -- one string                                       TypeVar("B0", bound="List[LB_leaf]")
+#   "fwd"   -- one explicit ForwardRef                          TypeVar("B0", bound=ForwardRef("List[LB_leaf]"))
+#   "inner" -- real containers around string atoms              TypeVar("B0", bound=List["LB_leaf"])
+# The strings use per-variable alias names (LB<uid>_<atom> / LK<uid>_<atom>) that the variable's OWN module binds
+# to the real types: a forward reference inside a TypeVar denotes what its declaring module binds the name to (this
+# is how ``typing`` / type checkers read it), whatever other modules call by that name.  The expectation
+# (``case["bound"]`` / ``case["constr"]``) therefore does not depend on any of this.
+ATOMS = ("int", "str", "bool", "none", "leaf")
+ALL_TV = [*PLAIN_TV, "B0", "K0", TVT]
+
+
+def case_mods(case):
+    m = case.get("mods")
+    if not m:
+        return {"n": 1, "tv": {}, "cls": [0] * len(case["classes"]), "leaf": 0, "foreign": ["same"]}
+    return m
+
+
+def limit_spelling(case, which):
+    return (case.get("limsp") or {}).get(which, "real")
+
+
+def soft_limit_kinds(case):
+    """Spellings of a limit that no adaptix document covers and that the implicit-parameter path of the unchanged
+    tree refuses cleanly (ProviderNotFoundError): a forward reference nested inside a real container
+    (``bound=List["Book"]``), and constraints written as plain strings (since Python 3.12 ``TypeVar`` keeps them as
+    ``str`` objects instead of ForwardRef).  Creation may be refused there; whatever IS created is asserted."""
+    out = set()
+    if limit_spelling(case, "bound") == "inner" and case["bound"][0] not in ATOMS:
+        out.add("bound")
+    if limit_spelling(case, "constr") in ("str", "inner"):
+        out.add("constr")
+    return out
+
+
+def render_limit(t, names, prefix, spelling):
+    if spelling == "real":
+        return render(t, names, "typing")
+
+    def expr(x, quote):
+        tag = x[0]
+        if tag in ATOMS:
+            nm = f"{prefix}_{tag}"
+            return repr(nm) if quote else nm
+        if tag == "list":
+            return f"List[{expr(x[1], quote)}]"
+        if tag == "opt":
+            return f"Optional[{expr(x[1], quote)}]"
+        if tag == "dict":
+            return f"Dict[str, {expr(x[1], quote)}]"
+        raise ValueError(x)
+    if spelling == "str":
+        return repr(expr(t, False))
+    if spelling == "fwd":
+        return f"ForwardRef({expr(t, False)!r})"
+    if spelling == "inner":
+        return expr(t, True)
+    raise ValueError(spelling)
+
+
+def limit_atoms(ts):
+    out = []
+    for t in ts:
+        for n in walk(t):
+            if n[0] in ATOMS and n[0] not in out:
+                out.append(n[0])
+    return out
+
+
+def gen_program(case, uid):  # noqa: C901, PLR0912, PLR0915
+    """-> (steps, names, module names); a step is (module index, source chunk); the chunks are executed in order,
+    each inside the namespace of its module (so that classes AND type variables get the right ``__module__``)."""
     kind, sp = case["kind"], case["spelling"]
-    names = {"leaf": f"Leaf{uid}", "cls": [f"M{uid}_{i}" for i in range(len(case["classes"]))]}
-    lines = [
+    mods = case_mods(case)
+    nm = mods["n"]
+    modnames = [f"c16_generated_{uid}" + (f"_m{k}" if nm > 1 else "") for k in range(nm)]
+    names = {"leaf": f"Leaf{uid}", "decoy": f"Decoy{uid}", "cls": [f"M{uid}_{i}" for i in range(len(case["classes"]))]}
+    steps = []
+    prelude = [
         "from dataclasses import dataclass",
-        "from typing import Annotated, Any, Dict, Generic, List, NamedTuple, Optional, Tuple, TypedDict, TypeVar, "
-        "TypeVarTuple, Union, Unpack",
+        "from typing import Annotated, Any, Dict, ForwardRef, Generic, List, NamedTuple, Optional, Tuple, TypedDict, "
+        "TypeVar, TypeVarTuple, Union, Unpack",
         "import attrs",
     ]
     if kind == "pydantic":
-        lines.append("from pydantic import BaseModel")
-    for tv in PLAIN_TV:
-        lines.append(f"{tv} = TypeVar({tv!r})")
-    lines.append(f"B0 = TypeVar('B0', bound={render(case['bound'], names, 'typing')})")
-    lines.append("K0 = TypeVar('K0', " + ", ".join(render(c, names, "typing") for c in case["constr"]) + ")")
-    lines.append(f"{TVT} = TypeVarTuple({TVT!r})")
+        prelude.append("from pydantic import BaseModel")
+    for m in range(nm):
+        steps.append((m, "\n".join(prelude)))
     multi = any(len(c["bases"]) > 1 for c in case["classes"])
     attrs_dec = "@attrs.define(slots=False)" if (multi or not case.get("slots", True)) else "@attrs.define"
 
@@ -255,10 +340,49 @@ def gen_source(case, uid):
         out.append(f"class {cname}({', '.join(allb)}):" if allb else f"class {cname}:")
         return out
 
+    def export(home, name):
+        for m in range(nm):
+            if m != home:
+                steps.append((m, f"from {modnames[home]} import {name}", "export"))
+
     # the helper model must exist before the TypeVars (the bound of B0 may be Leaf)
-    leaf = header(names["leaf"], [], "", True) + ["    v: int", ""]
-    tv_lines = [ln for ln in lines if "= TypeVar" in ln]
-    lines = [ln for ln in lines if "= TypeVar" not in ln] + leaf + tv_lines
+    steps.append((mods["leaf"], "\n".join(header(names["leaf"], [], "", True) + ["    v: int", ""])))
+    export(mods["leaf"], names["leaf"])
+
+    # names used by string-spelled limits: real in the variable's own module; same / decoy / absent elsewhere
+    real = {"int": "int", "str": "str", "bool": "bool", "none": "None", "leaf": names["leaf"]}
+    limits = (("B0", "bound", f"LB{uid}", [case["bound"]]), ("K0", "constr", f"LK{uid}", list(case["constr"])))
+    spelled = [x for x in limits if limit_spelling(case, x[1]) != "real"]
+    if spelled:
+        for m in range(nm):
+            if mods["foreign"][m] == "decoy" and any(mods["tv"].get(tv, 0) != m for tv, _, _, _ in spelled):
+                steps.append((m, "\n".join(header(names["decoy"], [], "", True) + ["    w: str", ""])))
+    for tv, _which, prefix, ts in spelled:
+        home = mods["tv"].get(tv, 0)
+        atoms = limit_atoms(ts)
+        steps.append((home, "\n".join(f"{prefix}_{a} = {real[a]}" for a in atoms)))
+        for m in range(nm):
+            if m == home or mods["foreign"][m] == "absent":
+                continue
+            if mods["foreign"][m] == "same":
+                steps.append((m, f"from {modnames[home]} import " + ", ".join(f"{prefix}_{a}" for a in atoms)))
+            else:
+                steps.append((m, "\n".join(f"{prefix}_{a} = {names['decoy']}" for a in atoms)))
+
+    for tv in ALL_TV:
+        home = mods["tv"].get(tv, 0)
+        if tv == "B0":
+            lim = render_limit(case["bound"], names, f"LB{uid}", limit_spelling(case, "bound"))
+            src = f"B0 = TypeVar('B0', bound={lim})"
+        elif tv == "K0":
+            src = "K0 = TypeVar('K0', " + ", ".join(
+                render_limit(c, names, f"LK{uid}", limit_spelling(case, "constr")) for c in case["constr"]) + ")"
+        elif tv == TVT:
+            src = f"{TVT} = TypeVarTuple({TVT!r})"
+        else:
+            src = f"{tv} = TypeVar({tv!r})"
+        steps.append((home, src))
+        export(home, tv)
 
     for i, c in enumerate(case["classes"]):
         bases_src = []
@@ -272,7 +396,7 @@ def gen_source(case, uid):
         if params and c["explicit"]:
             generic_src = "Generic[" + ", ".join(
                 (f"*{p}" if sp == "builtin" else f"Unpack[{p}]") if p == TVT else p for p in params) + "]"
-        lines += header(names["cls"][i], bases_src, generic_src, root=not c["bases"])
+        lines = header(names["cls"][i], bases_src, generic_src, root=not c["bases"])
         # "wrap": a transparent Annotated[...] around the whole annotation (also directly around a bare type variable)
         body = [f"    {f['name']}: " + (f"Annotated[{render(f['ann'], names, sp)}, 'meta']" if f.get("wrap") == "annotated"
                                         else render(f['ann'], names, sp)) for f in c["fields"]]
@@ -281,26 +405,66 @@ def gen_source(case, uid):
             # a model may be iterable: it is still a model (also with exactly one type argument)
             lines += ["    def __iter__(self):", "        return iter(())"]
         lines.append("")
-    return "\n".join(lines), names
+        steps.append((mods["cls"][i], "\n".join(lines)))
+        export(mods["cls"][i], names["cls"][i])
+    return steps, names, modnames
+
+
+def program_text(steps, modnames):
+    """Human-readable rendering (the replay file holds the case itself).  Every class, type variable and the helper
+    model is imported into every other module right after its definition: those steps are folded into one line."""
+    if len(modnames) == 1:
+        return "\n".join(step[1] for step in steps)
+    out, cur, folded = [f"# every module starts with:\n{steps[0][1]}"], None, None
+    for step in steps[len(modnames):]:
+        m, src = step[0], step[1]
+        if len(step) > 2:
+            name = src.rsplit(" ", 1)[-1]
+            if folded != name:
+                out.append(f"#      (then, in every other module: from {modnames[cur]} import {name})")
+                folded = name
+            continue
+        if m != cur:
+            out.append(f"# ---- in module {modnames[m]}")
+            cur = m
+        out.append(src)
+    return "\n".join(out)
 
 
 def build(case):
     uid = next(_counter)
-    src, names = gen_source(case, uid)
-    modname = f"c16_generated_{uid}"
-    mod = types.ModuleType(modname)
-    sys.modules[modname] = mod
+    steps, names, modnames = gen_program(case, uid)
+    src = program_text(steps, modnames)
+    mods = [types.ModuleType(n) for n in modnames]
+    for n, mod in zip(modnames, mods):
+        sys.modules[n] = mod
     try:
-        exec(compile(src, f"<c16 generated {uid}>", "exec"), mod.__dict__)  # noqa: S102
+        for k, (m, chunk, *_) in enumerate(steps):
+            # (compiled WITHOUT dont_inherit, as this check always did: this module's ``from __future__ import
+            # annotations`` makes the generated annotations lazy strings, resolved in the CLASS's module)
+            exec(compile(chunk, f"<c16 generated {uid} step {k}>", "exec"), mods[m].__dict__)  # noqa: S102
     except TypeError as e:
         # Python itself refuses the hierarchy (inconsistent MRO, instance lay-out conflict, ...)
-        del sys.modules[modname]
+        for n in modnames:
+            del sys.modules[n]
         raise Skip("class_rejected_by_python") from e
     except BaseException:
-        del sys.modules[modname]
+        for n in modnames:
+            del sys.modules[n]
         raise
-    ns = mod.__dict__
-    return {"mod": modname, "src": src, "leaf": ns[names["leaf"]], "cls": [ns[n] for n in names["cls"]]}
+    cmods = case_mods(case)
+    cls = [mods[cmods["cls"][i]].__dict__[n] for i, n in enumerate(names["cls"])]
+    for i, c in enumerate(cls):
+        if c.__module__ != modnames[cmods["cls"][i]]:
+            raise AssertionError(f"harness: class {i} reports module {c.__module__}\n{src}")
+    for tv in ALL_TV:
+        home = cmods["tv"].get(tv, 0)
+        if mods[home].__dict__[tv].__module__ != modnames[home] or any(
+                m.__dict__[tv] is not mods[home].__dict__[tv] for m in mods):
+            raise AssertionError(f"harness: type variable {tv} is not the one of module {modnames[home]}\n{src}")
+    # every module imports every class, type variable and the helper model: module 0 can spell any query
+    return {"mods": modnames, "ns": mods[0].__dict__, "src": src, "leaf": mods[cmods["leaf"]].__dict__[names["leaf"]],
+            "cls": cls}
 
 
 # =================================================================================== the independent expectation
@@ -507,6 +671,8 @@ def make_data(h: Hier, t, v, depth=0):
         return [make_data(h, x, v + k, depth + 1) for k, x in enumerate(t[1])]
     if tag in ("leaf", "gen", "genbare"):
         return {n: make_data(h, ft, v + k, depth + 1) for k, (n, ft) in enumerate(h.model_fields(t).items())}
+    if tag == "decoy":      # the unrelated model some module binds a limit NAME to (never an expected type)
+        return {"w": ["x!", "text", ""][v % 3]}
     raise ValueError(t)
 
 
@@ -538,6 +704,8 @@ def conforms(h: Hier, d, t):  # noqa: PLR0911, C901
         fields = h.model_fields(t)
         # unknown keys are skipped by default (docs: extra_in=ExtraSkip), so only the model's own keys matter
         return type(d) is dict and set(fields) <= set(d) and all(conforms(h, d[n], ft) for n, ft in fields.items())
+    if tag == "decoy":
+        return type(d) is dict and type(d.get("w")) is str
     raise ValueError(t)
 
 
@@ -601,7 +769,10 @@ def construct(h: Hier, t, d):
     if tag in ("int", "str", "bool", "none", "any"):
         return d
     if tag == "union":
-        return d
+        for x in t[1]:
+            if conforms(h, d, x):
+                return construct(h, x, d)
+        raise AssertionError("data conforms to no union member")
     if tag == "opt":
         return None if d is None else construct(h, t[1], d)
     if tag == "list":
@@ -707,6 +878,42 @@ def known_tags(h: Hier, case, exp, envs=None):
     return sorted(tags)
 
 
+def module_labels(h: Hier, case, exp):
+    """Labels of the module / limit-spelling dimension, and: does an implicit parameter of this case come from a
+    limit whose spelling is outside every document (``soft_limit_kinds``)?"""
+    mods = case_mods(case)
+    labels = [f"modules:{mods['n']}"]
+    used = uses(h, case, exp)
+    relevant = set()
+    for j, _ in used:
+        relevant |= {j, *h.ancestors(j)}
+    if any(mods["tv"].get(p, 0) != mods["cls"][i] for i in relevant for p in h.params(i)):
+        labels.append("typevar_declared_in_another_module")
+    if len({mods["cls"][i] for i in relevant}) > 1:
+        labels.append("hierarchy_spans_modules")
+    soft = soft_limit_kinds(case)
+    soft_used = False
+    seen = set()
+    for j, n in used:
+        if n is not None:
+            continue
+        for p in h.params(j):
+            k = tv_kind(p)
+            if k not in ("bound", "constr"):
+                continue
+            spl = limit_spelling(case, k)
+            if k in soft:
+                soft_used = True
+                spl += "(undocumented)"
+            home = mods["tv"].get(p, 0)
+            where = "own_module" if home == mods["cls"][j] else "other_module_name_" + mods["foreign"][mods["cls"][j]]
+            for lab in (f"implicit_{k}_spelled:{spl}", f"implicit_limit_from:{where}" if spl != "real" else None):
+                if lab and lab not in seen:
+                    seen.add(lab)
+                    labels.append(lab)
+    return labels, soft_used
+
+
 def structure_labels(h: Hier, case, defs, q):
     labels = []
 
@@ -784,6 +991,8 @@ def check_case(ctx: runner.Ctx, case):  # noqa: C901, PLR0912, PLR0915
         return check_initvar(ctx, case)
     if case.get("steered"):
         ctx.count("excluded_known")
+    if case.get("steered_limsp"):
+        ctx.count("excluded_undocumented_limit_spelling")
     try:
         built = build(case)
     except Skip as s:
@@ -794,7 +1003,8 @@ def check_case(ctx: runner.Ctx, case):  # noqa: C901, PLR0912, PLR0915
     except Skip as s:
         ctx.count(str(s))
     finally:
-        sys.modules.pop(built["mod"], None)
+        for n in built["mods"]:
+            sys.modules.pop(n, None)
 
 
 def _sanity_params(h: Hier, case, built):
@@ -829,7 +1039,7 @@ def _check_built(ctx, case, built):  # noqa: C901, PLR0912, PLR0915
     elif not q["args"]:
         tp = cls[()]
     else:
-        ns = sys.modules[built["mod"]].__dict__
+        ns = built["ns"]
         names = {"leaf": built["leaf"].__name__, "cls": [c.__name__ for c in built["cls"]]}
         qsrc = render(["gen", qi, q["args"]], names, "typing")
         mode = int(case.get("unpack_spelled") or 0)
@@ -865,6 +1075,8 @@ def _check_built(ctx, case, built):  # noqa: C901, PLR0912, PLR0915
 
     labels, levels, permuted = structure_labels(h, case, defs, qi)
     labels += [f"kind:{kind}", f"debug:{case['debug']}", f"spelling:{case['spelling']}", *labels_extra]
+    mod_labels, soft_used = module_labels(h, case, exp)
+    labels += mod_labels
     if bare:
         labels.append("bare_query")
         for p in params:
@@ -884,7 +1096,8 @@ def _check_built(ctx, case, built):  # noqa: C901, PLR0912, PLR0915
     distinct_tvs = {tv for i in [qi, *h.ancestors(qi)] for tv in h.params(i)}
     nontrivial = bool(exp) and (levels >= 2 or (len(distinct_tvs) >= 2 and permuted))
     key = [case["kind"], case["classes"], case["query"], case["bound"], case["constr"], case["debug"],
-           case["spelling"], int(case.get("unpack_spelled") or 0) if TVT in params else 0]
+           case["spelling"], int(case.get("unpack_spelled") or 0) if TVT in params else 0,
+           case.get("mods"), case.get("limsp")]
     ctx.case(key, nontrivial,
              sample={"kind": kind, "source": built["src"].split("\n\n", 1)[-1][-1500:], "query": repr(tp)[:200],
                      "expected": {n: repr(t) for n, t in exp.items()}, "labels": labels},
@@ -923,6 +1136,9 @@ def _check_built(ctx, case, built):  # noqa: C901, PLR0912, PLR0915
             if unspec_fields:
                 # some field type is not fixed by the docs, so nothing says it must be loadable at all
                 ctx.count("unspecified_creation_refused_with_unspecified_field")
+            elif soft_used:
+                # an implicit parameter comes from a limit spelled in a way no document covers (soft_limit_kinds)
+                ctx.count("unspecified_creation_refused_undocumented_limit_spelling")
             else:
                 viol("creation_failed", (what, type(e).__name__, site(e)), describe(e))
         except Exception as e:  # noqa: BLE001 -- a foreign exception out of get_loader/get_dumper is never legitimate
@@ -1008,6 +1224,9 @@ def _check_built(ctx, case, built):  # noqa: C901, PLR0912, PLR0915
 
     # ---------------------------------------------------------------- data fitting only another substitution
     pool = [["int"], ["str"], ["bool"], ["none"], ["list", ["int"]], ["leaf"], ["list", ["str"]], ["list", ["leaf"]]]
+    if "decoy" in case_mods(case)["foreign"] and (case.get("limsp") or {}):
+        # data fitting what ANOTHER module calls by the name used in a string-spelled bound / constraint
+        pool = [["decoy"], ["list", ["decoy"]], *pool]
     v0 = case["variants"][0]
     total = 0
     for n in spec_fields:
@@ -1259,11 +1478,50 @@ def st_case(draw):  # noqa: C901, PLR0912, PLR0915
     # C16_PROBE_KNOWN=1 lifts the exclusion completely (use it to re-test after a fix)
     allow_known = chance(draw, 1, 16) or os.environ.get("C16_PROBE_KNOWN") == "1"
     diamond_mode = kind in ("dataclass", "attrs", "typeddict") and chance(draw, 1, 5)
-    bound = draw(st.sampled_from([["int"], ["str"], ["leaf"], ["list", ["int"]], ["bool"]]))
+    bound = draw(st.sampled_from([["int"], ["str"], ["leaf"], ["list", ["int"]], ["bool"], ["list", ["leaf"]]]))
     constr = draw(st.sampled_from([[["str"], ["bool"]], [["int"], ["none"]], [["int"], ["str"]],
                                    [["bool"], ["none"], ["str"]]]))
     use_tvt = kind != "pydantic" and chance(draw, 3, 10)
     use_limited = chance(draw, 1, 2)
+    # ---- where things are declared, and how the limits of B0 / K0 are spelled (drawn early, see above)
+    nm = draw(st.sampled_from([2, 1, 3, 2, 1]))
+    mods = None
+    if nm > 1:
+        mods = {"n": nm,
+                "tv": {tv: draw(_range(nm)) for tv in ALL_TV},
+                "cls": [draw(_range(nm)) for _ in range(5)],
+                "leaf": draw(_range(nm)),
+                "foreign": [draw(st.sampled_from(["decoy", "absent", "same", "decoy"])) for _ in range(nm)]}
+    limsp = {"bound": draw(st.sampled_from(["str", "real", "fwd", "real", "str", "inner"])),
+             "constr": draw(st.sampled_from(["fwd", "real", "fwd", "real", "str"]))}
+    if limsp["bound"] == "inner" and bound[0] in ATOMS:
+        limsp["bound"] = "str"      # no container to put the string into: the same source text as "str"
+    if kind == "pydantic":
+        # pydantic resolves the limits of a TypeVar itself, in the namespace of the MODEL's module, while it builds
+        # the class (a name that is absent there leaves the class "not fully defined", a decoy makes pydantic's own
+        # validator check for the decoy) -> for pydantic the names mean the same everywhere, and no spelling that
+        # pydantic may not be able to read
+        if mods:
+            mods["foreign"] = ["same"] * nm
+        limsp = {"bound": limsp["bound"] if limsp["bound"] != "inner" else "real",
+                 "constr": "real"}
+    soft = soft_limit_kinds({"bound": bound, "limsp": limsp})
+    steered_limsp = False
+    if soft and os.environ.get("C16_PROBE_SOFT") != "1":
+        # undocumented spellings that the implicit-parameter path of the unchanged tree does not resolve (finding
+        # "unresolved limits" in notes/C16.md: ProviderNotFoundError or a raw ValueError) -> the nearest spelling
+        # that is resolved; C16_PROBE_SOFT=1 lifts the exclusion
+        if "bound" in soft:
+            limsp["bound"] = "str"
+        if "constr" in soft:
+            limsp["constr"] = "fwd"
+        steered_limsp = True
+    if limsp == {"bound": "real", "constr": "real"}:
+        limsp = None
+    elif not use_limited and chance(draw, 2, 3):
+        use_limited = True      # a spelling only matters when B0 / K0 are in the pool
+    if limsp and use_limited and not bare_query:
+        bare_query = chance(draw, 1, 4)     # ... and when something is used bare
     tv_pool = list(PLAIN_TV) + (["B0", "K0"] if use_limited else []) + ([TVT] if use_tvt else [])
     if diamond_mode:
         ncls = draw(st.sampled_from([4, 4, 5]))
@@ -1401,7 +1659,11 @@ def st_case(draw):  # noqa: C901, PLR0912, PLR0915
         qargs = None
     else:
         qargs = draw(st_args_for(case_ctx, qi, [], True, allow_known)) if qparams else None
+    if mods:
+        mods["cls"] = mods["cls"][:ncls]
     return {
+        **({"mods": mods} if mods else {}), **({"limsp": limsp} if limsp else {}),
+        **({"steered_limsp": True} if steered_limsp else {}),
         "iter_dunder": chance(draw, 1, 6),
         "kind": kind, "spelling": spelling, "bound": bound, "constr": constr,
         "classes": classes, "query": {"cls": qi, "args": qargs}, "debug": debug,
@@ -1462,6 +1724,52 @@ def fixed_cases():
             yield _c(kind, [g, p, ch], {"cls": 2, "args": [["bool"]]}, debug=dbg)
             yield _c(kind, [g, p, ch], {"cls": 1, "args": [["int"], ["none"]]}, debug=dbg)
             yield _c(kind, [g, p, ch], {"cls": 2, "args": None}, debug=dbg)
+
+
+def module_table():
+    """Exhaustive side table of the module dimension for the implicit parameters (same oracle, ``check_case``):
+    model kind x limited variable (bound / constraints, two limits each) x spelling x meaning of the limit names in
+    the model's module(s) x the place of the bare use.  Module 0 declares the type variables and the helper model."""
+    tv = lambda n: ["tv", n]  # noqa: E731
+    soft_too = os.environ.get("C16_PROBE_SOFT") == "1"
+    variables = [("B0", {"bound": b}, "bound", sp) for b in (["leaf"], ["list", ["leaf"]])
+                 for sp in ("str", "fwd", *(["inner"] if soft_too else []))]
+    variables += [("K0", {"constr": c}, "constr", sp) for c in ([["int"], ["str"]], [["leaf"], ["bool"]])
+                  for sp in ("fwd", *(["str"] if soft_too else []))]
+    for kind in ("dataclass", "attrs", "typeddict", "namedtuple"):
+        for var, limits, which, sp in variables:
+            if kind == "typeddict" and which == "constr" and ["leaf"] in limits["constr"]:
+                # docs (Union): "Dumper finds appropriate dumper using object type" -- a TypedDict value is a plain
+                # dict, so a TypedDict model cannot be a member of a dumped Union
+                limits = {"constr": [["none"], ["bool"]]}
+            probe = {"kind": kind, "bound": ["int"], "constr": [["str"], ["bool"]], **limits, "limsp": {which: sp}}
+            if soft_limit_kinds(probe) and not soft_too:
+                continue
+            g = {"params": [var, "T1"], "bases": [], "explicit": True,
+                 "fields": [{"name": "f00", "ann": tv(var)}, {"name": "f01", "ann": ["list", tv(var)]},
+                            {"name": "f02", "ann": tv("T1")}]}
+            child = {"params": [var], "bases": [{"cls": 0, "args": [tv(var), ["str"]]}], "explicit": False,
+                     "fields": [] if kind == "namedtuple" else [{"name": "f10", "ann": ["opt", tv(var)]}]}
+            holder = {"params": [], "bases": [], "explicit": True,
+                      "fields": [{"name": "f20", "ann": ["genbare", 0]}, {"name": "f21", "ann": ["list", ["genbare", 0]]}]}
+            for mode in ("decoy", "absent", "same"):
+                shapes = [
+                    ([g], [1], 0, ["same", mode]),                        # the generic itself, bare
+                    ([g, child], [1, 2], 1, ["same", "same", mode]),      # bare child threading the variable up
+                    ([g, child], [1, 2], 1, ["same", mode, "same"]),      # ... the PARENT's module differs
+                    ([g, holder], [1, 2], 1, ["same", mode, "same"]),     # bare inside an annotation of a third module
+                    ([g, holder], [1, 2], 1, ["same", "same", mode]),
+                    ([g], [0], 0, ["same", mode]),                        # everything in the variable's own module
+                ]
+                seen = []
+                for classes, homes, qi, foreign in shapes:
+                    if (classes, homes, foreign) in seen:
+                        continue        # mode "same": some rows coincide
+                    seen.append((classes, homes, foreign))
+                    nm = len(foreign)
+                    yield _c(kind, classes, {"cls": qi, "args": None}, **limits, limsp={which: sp},
+                             mods={"n": nm, "tv": {t: (0 if t in (var, "T1") else nm - 1) for t in ALL_TV},
+                                   "cls": homes, "leaf": 0, "foreign": foreign})
 
 
 # ------------------------------------------------------------------------------------ InitVar[T]: an input-only member
@@ -1533,17 +1841,24 @@ def explore(ctx: runner.Ctx):
     if ctx.shard == 0:
         for case in fixed_cases():
             check_case(ctx, case)
+    for k, case in enumerate(module_table()):
+        if k % ctx.nshards == ctx.shard:        # the table is spread over the shards
+            check_case(ctx, case)
+    if ctx.shard == 0:
+        ctx.mark_exhaustive("module table: 4 model kinds x bound/constraints (4 limits) x string / ForwardRef spelling "
+                            "x limit names same / decoy / absent in the model's module x 6 places of the bare use")
         for i in range(len(INITVAR_PROBES)):
             for dbg in (0, 2):
                 runner.guarded(ctx, lambda c: check_case(ctx, c), {"initvar": i, "debug": dbg})
     ctx.given(st_case(), lambda case: check_case(ctx, case), ctx.budget(6000, 100000))
 
 
-RULE = ("cases = generated (hierarchy of <= 5 generic classes of one model kind, query parametrisation or bare, "
+RULE = ("cases = generated (hierarchy of <= 5 generic classes of one model kind spread over 1-3 modules, declaring "
+        "module of every type variable, spelling of bound / constraints, query parametrisation or bare, "
         "debug_trail, two data variants); per case 2 conforming loads + field-wise comparison + 2x2 dumps and up to "
         "24 single-field probes with data built for another substitution. Non-trivial = the queried class has >= 2 "
         "inheritance levels, or >= 2 type variables used in a permuted order; distinct by (kind, class specs, "
-        "query, bound/constraints, debug, spelling).")
+        "query, bound/constraints, debug, spelling, module lay-out, limit spelling).")
 
 if __name__ == "__main__":
     raise SystemExit(runner.main(
@@ -1557,5 +1872,11 @@ if __name__ == "__main__":
             "no annotations; overrides inside diamonds where dataclasses and the MRO disagree are skipped",
             "unspecified (counted, not asserted): implicit parameter of a bare TypeVarTuple; bound/constrained "
             "variables behind a bare generic *base* (Python spec says Any, adaptix docs say bound/Union)",
+            "string / ForwardRef limits of a TypeVar mean what the TypeVar's declaring module binds the names to "
+            "(typing semantics; changelog: 'Fix ForwardRef evaluation inside bound of TypeVar'); forward references "
+            "nested in a real container (bound=List['X']) and constraints given as plain strings (kept as str by "
+            "Python 3.12) are not resolved by the implicit-parameter path of the unchanged tree and are not generated "
+            "unless C16_PROBE_SOFT=1 (counted: excluded_undocumented_limit_spelling); pydantic: limit names mean the "
+            "same in every module (pydantic resolves TypeVar limits itself in the model's module)",
         ],
     ))
